@@ -1,7 +1,7 @@
 """C02 rollback: crash-point enumeration + failure while the cache is written."""
 import random
 
-from .common import signature, detail, case_of, account_build, handle_divs, nested_cache_rel
+from .common import FAULT_ERRNOS, signature, detail, case_of, account_build, handle_divs, nested_cache_rel
 from ..env import Scratch
 from ..world import World
 from ..gen import GenCfg, gen_program, gen_versions, program_shape
@@ -87,7 +87,7 @@ def run_shard(sh):
                     ks = sorted(rng.sample(ks, maxk))
                 plans = [{'crash_at': k} for k in ks]
                 plans.append({'fault': {'k': 1, 'kinds': ['open_w'], 'phases': ['post-root'],
-                                        'errno': rng.choice(['EIO', 'ENOSPC', 'EACCES']),
+                                        'errno': rng.choice(FAULT_ERRNOS),
                                         'cls': 'OSError'}})
                 for plan in plans:
                     if sh.time_left() <= 0:
